@@ -1,8 +1,420 @@
-/- PyodaModel.OffsetTypes — placeholder until the area is modelled. -/
-import PyodaModel.Prelude
+/-
+  PyodaModel.OffsetTypes — OffsetDateTime, OffsetDate, OffsetTime and the ZonedDateTime operations.
+  Transcribed from pyoda_time/_offset_date_time.py, _offset_date.py, _offset_time.py, _zoned_date_time.py,
+  and the conversions of _instant.py / _local_date_time.py that build these values.
 
-namespace Pyoda.OffsetTypes
+  A date is (calendar, day number on the shared day line).  A calendar is its ordinal and the valid
+  day range `[minDays, maxDays]` (`CalendarSystem._min_days/_max_days`); year/month/day fields are the
+  business of C01 and do not occur here: every operation of these types goes through the day number.
+  A zone is a function `Instant → R Offset` passed per operation.
+-/
+import PyodaModel.Elapsed
 
-def handle (_toks : List String) : Option String := none
+namespace Pyoda
 
-end Pyoda.OffsetTypes
+structure Cal where
+  ord : Int
+  minDays : Int
+  maxDays : Int
+  deriving DecidableEq, Repr, Inhabited
+
+structure Date where
+  cal : Cal
+  days : Int
+  deriving DecidableEq, Repr, Inhabited
+
+namespace Date
+/-- `LocalDate._ctor(days_since_epoch=, calendar=)`: range-checked against the calendar
+    (`CalendarSystem._get_year_month_day_calendar_from_days_since_epoch`). -/
+def ofDays (c : Cal) (days : Int) : R Date := do
+  checkRange days c.minDays c.maxDays
+  .ok ⟨c, days⟩
+
+/-- `LocalDate.with_calendar` -/
+def withCalendar (d : Date) (c : Cal) : R Date := ofDays c d.days
+
+/-- `LocalDate.plus_days` (`_FixedLengthDatePeriodField(1).add`): `OverflowError` when the result leaves
+    the calendar's supported years. -/
+def plusDays (d : Date) (k : Int) : R Date :=
+  if k = 0 then .ok d
+  else
+    let n := d.days + k
+    if n < d.cal.minDays ∨ n > d.cal.maxDays then .error .overflowError else .ok ⟨d.cal, n⟩
+end Date
+
+/-! ## OffsetTime: nanosecond-of-day and offset seconds packed in one integer -/
+
+structure OffsetTime where
+  packed : Int
+  deriving DecidableEq, Repr, Inhabited
+
+namespace OffsetTime
+def NANO_BITS_POW : Int := 140737488355328   -- 1 << 47
+
+/-- `nanosecond_of_day | (offset_seconds << 47)`; for `0 ≤ nanosecond_of_day < 2^47` the bitwise or of the
+    two disjoint bit ranges is their sum (the driver answers `!dom` outside that domain). -/
+def ofParts (nod offSeconds : Int) : OffsetTime := ⟨nod + offSeconds * NANO_BITS_POW⟩
+
+def inPackDomain (nod : Int) : Bool := decide (0 ≤ nod) && decide (nod < NANO_BITS_POW)
+
+/-- `& ((1 << 47) - 1)` -/
+def nanosecondOfDay (t : OffsetTime) : Int := t.packed % NANO_BITS_POW
+/-- `>> 47` -/
+def offsetSeconds (t : OffsetTime) : Int := t.packed >>> 47
+def offsetNanoseconds (t : OffsetTime) : Int := t.offsetSeconds * NPS
+def offset (t : OffsetTime) : R Offset := Offset.ctor t.offsetSeconds
+
+def hour (t : OffsetTime) : R Int := pyTdiv (t.nanosecondOfDay >>> 13) 439453125
+def minute (t : OffsetTime) : R Int := do
+  let m ← pyTdiv (t.nanosecondOfDay >>> 11) 29296875
+  .ok (csharpMod m 60)
+def second (t : OffsetTime) : R Int := do
+  let s ← pyTdiv t.nanosecondOfDay NPS
+  .ok (csharpMod s 60)
+def millisecond (t : OffsetTime) : R Int := do
+  let s ← pyTdiv t.nanosecondOfDay NPMs
+  .ok (csharpMod s 1000)
+def tickOfDay (t : OffsetTime) : R Int := pyTdiv t.nanosecondOfDay NPT
+def tickOfSecond (t : OffsetTime) : R Int := do
+  let s ← t.tickOfDay
+  .ok (csharpMod s TPS)
+def nanosecondOfSecond (t : OffsetTime) : Int := csharpMod t.nanosecondOfDay NPS
+
+/-- `OffsetTime.with_offset` -/
+def withOffset (t : OffsetTime) (o : Offset) : OffsetTime := ofParts t.nanosecondOfDay o.seconds
+/-- `OffsetTime.with_time_adjuster` with an adjuster returning the time `newNod` -/
+def withTime (t : OffsetTime) (newNod : Int) : OffsetTime := ofParts newNod t.offsetSeconds
+end OffsetTime
+
+/-! ## OffsetDateTime -/
+
+structure OffsetDateTime where
+  date : Date
+  ot : OffsetTime
+  deriving DecidableEq, Repr, Inhabited
+
+namespace OffsetDateTime
+
+def nanosecondOfDay (x : OffsetDateTime) : Int := x.ot.nanosecondOfDay
+def offsetSeconds (x : OffsetDateTime) : Int := x.ot.offsetSeconds
+def calendar (x : OffsetDateTime) : Cal := x.date.cal
+
+/-- public constructor `OffsetDateTime(local_date_time, offset)` / `LocalDateTime.with_offset` -/
+def ofLocal (d : Date) (nod : Int) (o : Offset) : OffsetDateTime := ⟨d, OffsetTime.ofParts nod o.seconds⟩
+
+/-- `OffsetDateTime._ctor(instant=, offset=, calendar=)` = `Instant.with_offset(offset, calendar)`:
+    one day carry, then the calendar's range check. -/
+def ofInstant (i : Instant) (o : Offset) (c : Cal) : R OffsetDateTime := do
+  let n := i.dur.nod + o.nanoseconds
+  let (days, n) :=
+    if n ≥ NPD then (i.dur.days + 1, n - NPD)
+    else if n < 0 then (i.dur.days - 1, n + NPD)
+    else (i.dur.days, n)
+  let d ← Date.ofDays c days
+  .ok ⟨d, OffsetTime.ofParts n o.seconds⟩
+
+/-- `__to_elapsed_time_since_epoch` -/
+def toElapsed (x : OffsetDateTime) : R Duration := do
+  let d ← Duration.ctor x.date.days x.nanosecondOfDay
+  Duration.minusSmallNanos d x.ot.offsetNanoseconds
+
+/-- `to_instant` -/
+def toInstant (x : OffsetDateTime) : R Instant := do
+  let e ← x.toElapsed
+  Instant.fromUntrusted e
+
+/-- `with_offset`: up to two day carries in either direction. -/
+def withOffset (x : OffsetDateTime) (o : Offset) : R OffsetDateTime := do
+  let n := x.ot.nanosecondOfDay + o.nanoseconds - x.ot.offsetNanoseconds
+  let (days, n) : Int × Int :=
+    if n ≥ NPD then
+      (if n - NPD ≥ NPD then (2, n - NPD - NPD) else (1, n - NPD))
+    else if n < 0 then
+      (if n + NPD < 0 then (-2, n + NPD + NPD) else (-1, n + NPD))
+    else (0, n)
+  let d ← if days = 0 then .ok x.date else x.date.plusDays days
+  .ok ⟨d, OffsetTime.ofParts n o.seconds⟩
+
+/-- `with_calendar` -/
+def withCalendar (x : OffsetDateTime) (c : Cal) : R OffsetDateTime := do
+  let d ← x.date.withCalendar c
+  .ok ⟨d, x.ot⟩
+
+/-- `with_date_adjuster` with an adjuster returning `newDate` -/
+def withDate (x : OffsetDateTime) (newDate : Date) : OffsetDateTime := ⟨newDate, x.ot⟩
+
+/-- `with_time_adjuster` with an adjuster returning the time `newNod` -/
+def withTime (x : OffsetDateTime) (newNod : Int) : OffsetDateTime := ⟨x.date, x.ot.withTime newNod⟩
+
+/-- `odt + duration`: offset **and calendar** retained (the snapshot passed no calendar to `_ctor` and so
+    answered in ISO — DESIGN section 7 row 8, repaired in /repo commit 0dd4cee). -/
+def plus (x : OffsetDateTime) (d : Duration) : R OffsetDateTime := do
+  let i ← x.toInstant
+  let j ← Instant.plus i d
+  let o ← x.ot.offset
+  ofInstant j o x.calendar
+
+/-- `odt - duration` -/
+def minusDur (x : OffsetDateTime) (d : Duration) : R OffsetDateTime := do
+  let i ← x.toInstant
+  let j ← Instant.minusDur i d
+  let o ← x.ot.offset
+  ofInstant j o x.calendar
+
+/-- `odt - odt` -/
+def minus (a b : OffsetDateTime) : R Duration := do
+  let i ← a.toInstant
+  let j ← b.toInstant
+  Instant.minus i j
+
+/-- `==`: same local date (calendar and day) and same packed time/offset -/
+def beq (a b : OffsetDateTime) : Bool :=
+  decide (a.date.cal.ord = b.date.cal.ord) && decide (a.date.days = b.date.days)
+    && decide (a.ot.nanosecondOfDay = b.ot.nanosecondOfDay) && decide (a.ot.offsetSeconds = b.ot.offsetSeconds)
+
+end OffsetDateTime
+
+/-! ## OffsetDate -/
+
+structure OffsetDate where
+  date : Date
+  offset : Offset
+  deriving DecidableEq, Repr, Inhabited
+
+namespace OffsetDate
+def withOffset (x : OffsetDate) (o : Offset) : OffsetDate := ⟨x.date, o⟩
+def withCalendar (x : OffsetDate) (c : Cal) : R OffsetDate := do
+  let d ← x.date.withCalendar c
+  .ok ⟨d, x.offset⟩
+def withDate (x : OffsetDate) (newDate : Date) : OffsetDate := ⟨newDate, x.offset⟩
+/-- `OffsetDate.at(time)` -/
+def atTime (x : OffsetDate) (nod : Int) : OffsetDateTime := OffsetDateTime.ofLocal x.date nod x.offset
+end OffsetDate
+
+namespace OffsetDateTime
+/-- `to_offset_date` -/
+def toOffsetDate (x : OffsetDateTime) : R OffsetDate := do
+  let o ← x.ot.offset
+  .ok ⟨x.date, o⟩
+end OffsetDateTime
+
+namespace OffsetTime
+/-- `OffsetTime.on(date)` -/
+def on (t : OffsetTime) (d : Date) : R OffsetDateTime := do
+  let o ← t.offset
+  .ok (OffsetDateTime.ofLocal d t.nanosecondOfDay o)
+end OffsetTime
+
+/-! ## ZonedDateTime over an abstract zone -/
+
+abbrev Zone := Instant → R Offset
+
+structure ZonedDateTime where
+  odt : OffsetDateTime
+  deriving DecidableEq, Repr, Inhabited
+
+namespace ZonedDateTime
+
+/-- `ZonedDateTime(instant=, zone=, calendar=)` = `Instant.in_zone(zone, calendar)` -/
+def ofInstant (z : Zone) (i : Instant) (c : Cal) : R ZonedDateTime := do
+  let o ← z i
+  let x ← OffsetDateTime.ofInstant i o c
+  .ok ⟨x⟩
+
+/-- `ZonedDateTime(local_date_time=, zone=, offset=)`: the offset must be the zone's at the implied instant. -/
+def ofLocal (z : Zone) (d : Date) (nod : Int) (o : Offset) : R ZonedDateTime := do
+  let l ← LocalInstant.ofDuration ⟨d.days, nod⟩
+  let cand ← LocalInstant.minus l o
+  let correct ← z cand
+  if correct.seconds ≠ o.seconds then .error .valueError
+  else .ok ⟨OffsetDateTime.ofLocal d nod o⟩
+
+def toInstant (x : ZonedDateTime) : R Instant := x.odt.toInstant
+def toOffsetDateTime (x : ZonedDateTime) : OffsetDateTime := x.odt
+
+/-- `zdt + duration`: new instant, same zone and calendar, offset re-derived from the zone. -/
+def plus (z : Zone) (x : ZonedDateTime) (d : Duration) : R ZonedDateTime := do
+  let i ← x.toInstant
+  let j ← Instant.plus i d
+  ofInstant z j x.odt.calendar
+
+/-- `zdt - duration`, written `zdt + (-duration)` on this tree (no `__sub__` in the port). -/
+def minusDur (z : Zone) (x : ZonedDateTime) (d : Duration) : R ZonedDateTime := do
+  let n ← Duration.neg d
+  plus z x n
+
+/-- `with_zone` (`zdt.to_instant().in_zone(zone2, zdt.calendar)` on this tree) -/
+def withZone (z2 : Zone) (x : ZonedDateTime) : R ZonedDateTime := do
+  let i ← x.toInstant
+  ofInstant z2 i x.odt.calendar
+
+/-- `with_calendar` (`zdt.to_instant().in_zone(zdt.zone, calendar)` on this tree) -/
+def withCalendar (z : Zone) (x : ZonedDateTime) (c : Cal) : R ZonedDateTime := do
+  let i ← x.toInstant
+  ofInstant z i c
+
+/-- `zdt - zdt` (`a.to_instant() - b.to_instant()`) -/
+def minus (a b : ZonedDateTime) : R Duration := do
+  let i ← a.toInstant
+  let j ← b.toInstant
+  Instant.minus i j
+
+end ZonedDateTime
+
+/-! ## concrete zones for the driver -/
+
+/-- A zone known on the window `[lo, hi)` (nanoseconds since the epoch) with one transition at `t`:
+    offset `before` on `[lo, t)`, `after` on `[t, hi)`.  Outside the window the model says nothing. -/
+structure ZoneSpec where
+  t : Int
+  before : Int
+  after : Int
+  lo : Int
+  hi : Int
+  deriving DecidableEq, Repr, Inhabited
+
+def ZoneSpec.toZone (s : ZoneSpec) : Zone := fun i =>
+  let v := i.dur.days * NPD + i.dur.nod
+  if v < s.lo ∨ v ≥ s.hi then .error .decimalDomain
+  else if v < s.t then Offset.ctor s.before else Offset.ctor s.after
+
+/-! ## line protocol -/
+
+namespace OffsetTypes
+open Elapsed
+
+def showOdt : R OffsetDateTime → String :=
+  showR (fun x => showInts [x.date.cal.ord, x.date.days, x.ot.nanosecondOfDay, x.ot.offsetSeconds])
+def showZdt : R ZonedDateTime → String := fun r => showOdt (r.map (·.odt))
+
+/-- odt on the wire: `ord minDays maxDays days nod off`; returns `none` when the time part is outside the
+    packing domain (the caller answers `!dom`). -/
+def mkOdt (ord mn mx days nod off : Int) : OffsetDateTime :=
+  ⟨⟨⟨ord, mn, mx⟩, days⟩, OffsetTime.ofParts nod off⟩
+
+def dom : Option String := some "!dom"
+
+def otAcc (t : OffsetTime) : String :=
+  " ".intercalate [toString t.packed, toString t.nanosecondOfDay, toString t.offsetSeconds, showI t.hour, showI t.minute,
+    showI t.second, showI t.millisecond, showI t.tickOfSecond, showI t.tickOfDay, toString t.nanosecondOfSecond]
+
+def handleInts (op : String) (a : List Int) : Option String :=
+  match op, a with
+  | "odt.new", [ord, mn, mx, days, nod, off] =>
+      if !OffsetTime.inPackDomain nod then dom else
+      let r : R OffsetDateTime := do
+        let d ← Date.ofDays ⟨ord, mn, mx⟩ days
+        let o ← Offset.fromSeconds off
+        .ok (OffsetDateTime.ofLocal d nod o)
+      match r with
+      | .error _ => some (showOdt r)
+      | .ok x => some (showOdt r ++ " | " ++ showInst x.toInstant)
+  | "odt.ofinst", [ord, mn, mx, idays, inod, off] =>
+      some (showOdt (do let o ← Offset.fromSeconds off; OffsetDateTime.ofInstant ⟨⟨idays, inod⟩⟩ o ⟨ord, mn, mx⟩))
+  | "odt.toinst", [ord, mn, mx, days, nod, off] =>
+      if !OffsetTime.inPackDomain nod then dom else
+      some (showInst (mkOdt ord mn mx days nod off).toInstant)
+  | "odt.withoff", [ord, mn, mx, days, nod, off, off2] =>
+      if !OffsetTime.inPackDomain nod then dom else
+      some (showOdt (do let o ← Offset.fromSeconds off2; (mkOdt ord mn mx days nod off).withOffset o))
+  | "odt.withcal", [ord, mn, mx, days, nod, off, ord2, mn2, mx2] =>
+      if !OffsetTime.inPackDomain nod then dom else
+      some (showOdt ((mkOdt ord mn mx days nod off).withCalendar ⟨ord2, mn2, mx2⟩))
+  | "odt.withdate", [ord, mn, mx, days, nod, off, ord2, mn2, mx2, days2] =>
+      if !OffsetTime.inPackDomain nod then dom else
+      some (showOdt (do let d ← Date.ofDays ⟨ord2, mn2, mx2⟩ days2; .ok ((mkOdt ord mn mx days nod off).withDate d)))
+  | "odt.withtime", [ord, mn, mx, days, nod, off, nod2] =>
+      if !OffsetTime.inPackDomain nod || !OffsetTime.inPackDomain nod2 then dom else
+      some (showOdt (.ok ((mkOdt ord mn mx days nod off).withTime nod2)))
+  | "odt.plus", [ord, mn, mx, days, nod, off, dd, dn] =>
+      if !OffsetTime.inPackDomain nod then dom else
+      some (showOdt ((mkOdt ord mn mx days nod off).plus ⟨dd, dn⟩))
+  | "odt.minus", [ord, mn, mx, days, nod, off, dd, dn] =>
+      if !OffsetTime.inPackDomain nod then dom else
+      some (showOdt ((mkOdt ord mn mx days nod off).minusDur ⟨dd, dn⟩))
+  | "odt.sub", [ord, mn, mx, days, nod, off, ord2, mn2, mx2, days2, nod2, off2] =>
+      if !OffsetTime.inPackDomain nod || !OffsetTime.inPackDomain nod2 then dom else
+      some (showDur ((mkOdt ord mn mx days nod off).minus (mkOdt ord2 mn2 mx2 days2 nod2 off2)))
+  | "odt.eq", [ord, mn, mx, days, nod, off, ord2, mn2, mx2, days2, nod2, off2] =>
+      if !OffsetTime.inPackDomain nod || !OffsetTime.inPackDomain nod2 then dom else
+      some (showBool ((mkOdt ord mn mx days nod off).beq (mkOdt ord2 mn2 mx2 days2 nod2 off2)))
+  | "odate.at", [ord, mn, mx, days, off, nod] =>
+      if !OffsetTime.inPackDomain nod then dom else
+      some (showOdt (do
+        let d ← Date.ofDays ⟨ord, mn, mx⟩ days
+        let o ← Offset.fromSeconds off
+        .ok ((⟨d, o⟩ : OffsetDate).atTime nod)))
+  | "odate.withcal", [ord, mn, mx, days, off, ord2, mn2, mx2] =>
+      some (showR (fun (x : OffsetDate) => showInts [x.date.cal.ord, x.date.days, x.offset.seconds]) (do
+        let d ← Date.ofDays ⟨ord, mn, mx⟩ days
+        let o ← Offset.fromSeconds off
+        (⟨d, o⟩ : OffsetDate).withCalendar ⟨ord2, mn2, mx2⟩))
+  | "odt.todate", [ord, mn, mx, days, nod, off] =>
+      if !OffsetTime.inPackDomain nod then dom else
+      some (showR (fun (x : OffsetDate) => showInts [x.date.cal.ord, x.date.days, x.offset.seconds])
+        (mkOdt ord mn mx days nod off).toOffsetDate)
+  | "otime.pack", [nod, off] =>
+      if !OffsetTime.inPackDomain nod then dom else some (otAcc (OffsetTime.ofParts nod off))
+  | "otime.raw", [p] => some (otAcc ⟨p⟩)
+  | "otime.withoff", [nod, off, off2] =>
+      if !OffsetTime.inPackDomain nod then dom else
+      some (showR (fun (t : OffsetTime) => showInts [t.packed, t.nanosecondOfDay, t.offsetSeconds])
+        (do let o ← Offset.fromSeconds off2; .ok ((OffsetTime.ofParts nod off).withOffset o)))
+  | "otime.on", [nod, off, ord, mn, mx, days] =>
+      if !OffsetTime.inPackDomain nod then dom else
+      some (showOdt (do let d ← Date.ofDays ⟨ord, mn, mx⟩ days; (OffsetTime.ofParts nod off).on d))
+  | _, _ => none
+
+/-- zone on the wire: `id t before after lo hi` (the id is for the implementation side only) -/
+def handleZoned (op : String) (a : List Int) (zs : List ZoneSpec) : Option String :=
+  match op, a, zs with
+  | "zdt.ofinst", [ord, mn, mx, idays, inod], [z] =>
+      some (showZdt (ZonedDateTime.ofInstant z.toZone ⟨⟨idays, inod⟩⟩ ⟨ord, mn, mx⟩))
+  | "zdt.new", [ord, mn, mx, days, nod, off], [z] =>
+      if !OffsetTime.inPackDomain nod then dom else
+      some (showZdt (do
+        let d ← Date.ofDays ⟨ord, mn, mx⟩ days
+        let o ← Offset.fromSeconds off
+        ZonedDateTime.ofLocal z.toZone d nod o))
+  | "zdt.plus", [ord, mn, mx, days, nod, off, dd, dn], [z] =>
+      if !OffsetTime.inPackDomain nod then dom else
+      some (showZdt (ZonedDateTime.plus z.toZone ⟨mkOdt ord mn mx days nod off⟩ ⟨dd, dn⟩))
+  | "zdt.minus", [ord, mn, mx, days, nod, off, dd, dn], [z] =>
+      if !OffsetTime.inPackDomain nod then dom else
+      some (showZdt (ZonedDateTime.minusDur z.toZone ⟨mkOdt ord mn mx days nod off⟩ ⟨dd, dn⟩))
+  | "zdt.withzone", [ord, mn, mx, days, nod, off], [z2] =>
+      if !OffsetTime.inPackDomain nod then dom else
+      some (showZdt (ZonedDateTime.withZone z2.toZone ⟨mkOdt ord mn mx days nod off⟩))
+  | "zdt.withcal", [ord, mn, mx, days, nod, off, ord2, mn2, mx2], [z] =>
+      if !OffsetTime.inPackDomain nod then dom else
+      some (showZdt (ZonedDateTime.withCalendar z.toZone ⟨mkOdt ord mn mx days nod off⟩ ⟨ord2, mn2, mx2⟩))
+  | "zdt.sub", [ord, mn, mx, days, nod, off, ord2, mn2, mx2, days2, nod2, off2], [] =>
+      if !OffsetTime.inPackDomain nod || !OffsetTime.inPackDomain nod2 then dom else
+      some (showDur (ZonedDateTime.minus ⟨mkOdt ord mn mx days nod off⟩ ⟨mkOdt ord2 mn2 mx2 days2 nod2 off2⟩))
+  | _, _, _ => none
+
+def parseZone? (l : List String) : Option ZoneSpec :=
+  match l with
+  | [_, t, b, a, lo, hi] => do
+      let l ← parseInts? [t, b, a, lo, hi]
+      match l with
+      | [t, b, a, lo, hi] => some ⟨t, b, a, lo, hi⟩
+      | _ => none
+  | _ => none
+
+def handle (toks : List String) : Option String :=
+  match toks with
+  | [] => none
+  | op :: rest =>
+    if op.startsWith "zdt." then
+      -- integer arguments, then `Z` followed by the six zone tokens (optional)
+      match rest.span (· != "Z") with
+      | (a, []) => do let a ← parseInts? a; handleZoned op a []
+      | (a, _ :: z) => do let a ← parseInts? a; let z ← parseZone? z; handleZoned op a [z]
+    else if op.startsWith "odt." || op.startsWith "odate." || op.startsWith "otime." then do
+      let a ← parseInts? rest
+      handleInts op a
+    else none
+
+end OffsetTypes
+end Pyoda
